@@ -540,6 +540,9 @@ func nearMisses(rng *rand.Rand, p cPattern, out []cOrigin) []cOrigin {
 			l1+p.Host,              // left-extended without dot
 			"a."+l1+p.Host,         // subdomain of the dot-less extension
 		)
+		// labels that start or end with a hyphen in the part the wildcard covers (the request side is lenient about label syntax;
+		// the pattern denotes every subdomain)
+		hosts = append(hosts, "-"+l1+"."+p.Host, l1+"-."+p.Host, "a.-"+l1+"-."+p.Host)
 		if h := padHost(rng, p.Host, 253); h != "" { // the longest host the pattern denotes
 			hosts = append(hosts, h)
 		}
